@@ -245,7 +245,8 @@ int main(int argc, char** argv) {
       if (vf::deadline_hit()) break;
    }
    // ---- three items (thorough): thinned options
-   if (th) for (auto& a : opts_thin) for (auto& b0 : opts_thin) {
+   // three items: thinned option sets for all three (quick) / full option set for the first item (thorough)
+   for (auto& a : (th ? opts : opts_thin)) for (auto& b0 : opts_thin) {
       if (!vf::want_case()) continue;
       for (auto& c0 : opts_thin) for (int s0 = 0; s0 < 3; s0 += 1) for (int sc = -1; sc < 2; ++sc) {
          if (sc == s0) continue;
@@ -257,7 +258,7 @@ int main(int argc, char** argv) {
       if (vf::deadline_hit()) break;
    }
    // ---- attribute histories
-   for (int depth = 1; depth <= (th ? 5 : 4); ++depth) {
+   for (int depth = 1; depth <= (th ? 6 : 5); ++depth) {
       // a case = first operation at this depth
       static const int first_ops = 7;
       for (int f = 0; f < first_ops; ++f) {
